@@ -7,7 +7,7 @@
    segmentations, EOF, error, EAGAIN at the end).  Non-vacuity examples: Httpd/HttpdExamples.v. *)
 From Coq Require Import ZArith List Bool.
 From LV Require Import Gen.Consts_C20 Httpd.HttpdDefs Httpd.HttpdProofs Httpd.HttpdGate Httpd.HttpdSafe
-  Httpd.HttpdBody Httpd.HttpdExamples.
+  Httpd.HttpdBody Httpd.HttpdSubst Httpd.HttpdExamples.
 Import ListNotations.
 Local Open Scope Z_scope.
 
@@ -115,3 +115,41 @@ Proof. exact params_alphabet. Qed.
 Theorem C20_no_stall : forall (fs : str -> option str) v cfg segs,
   Z.of_nat (snd (http_process_n fs v cfg segs)) <= C20_BUF_SIZE.
 Proof. exact no_stall. Qed.
+
+(* ... and this is tied to the non-blocking flag: every socket rfbHttpCheckFds accepts - from the IPv4
+   or from the IPv6 listener - is non-blocking, hence a call on it returns (a blocking socket would
+   stall on an incomplete request: Httpd.HttpdSafe.blocking_socket_stalls) *)
+Theorem C20_accepted_nonblocking : forall l4 l6 nb s,
+  accept_step l4 l6 nb = Some s -> nonblocking s = true.
+Proof. exact accepted_nonblocking. Qed.
+
+Theorem C20_no_stall_accepted : forall l4 l6 nb s (fs : str -> option str) v cfg segs,
+  accept_step l4 l6 nb = Some s ->
+  exists r n, http_call s fs v cfg segs = Returned r n /\ Z.of_nat n <= C20_BUF_SIZE.
+Proof. exact no_stall_accepted. Qed.
+
+(* C20_substitution.  A chunk of a .vnc file: text without '$' is copied unchanged; after plain text
+   each documented variable ($WIDTH $HEIGHT $APPLETWIDTH $APPLETHEIGHT $PORT $DESKTOP $DISPLAY $USER
+   $PARAMS) is replaced by its value and substitution continues behind it; "$$" gives "$"; any other
+   '$' is left alone.  ($PARAMS is restricted to the alphabet by C20_params_alphabet.) *)
+Theorem C20_substitution_plain : forall cfg params chunk,
+  index_of c_dollar (cstr chunk) = None -> subst_text cfg params chunk = Some chunk.
+Proof. exact subst_plain. Qed.
+
+Theorem C20_substitution : forall cfg params pre var value post,
+  display_fits cfg -> plain pre -> In (var, value) (var_table cfg params) ->
+  subst_text cfg params (pre ++ var ++ post) =
+  match subst_text cfg params post with
+  | Some rest => Some (pre ++ value ++ rest)
+  | None => None
+  end.
+Proof. exact substitution_variable. Qed.
+
+Theorem C20_substitution_other_dollar : forall cfg params pre r,
+  plain pre -> no_var cfg params (c_dollar :: r) ->
+  subst_text cfg params (pre ++ c_dollar :: r) =
+  match subst_text cfg params (if is_prefix v_DD (c_dollar :: r) then skipn 2 (c_dollar :: r) else r) with
+  | Some rest => Some (pre ++ s_dollar ++ rest)
+  | None => None
+  end.
+Proof. exact substitution_other_dollar. Qed.
